@@ -124,6 +124,7 @@ structure Cmd where
   pick : Nat := 0          -- ghost: which candidate Go's map iteration meets first (default DNS target)
   extra : Nat := 0         -- claimed: when ≠ 0 the body also carries every identity-like JSON key (`Gen.c11.identityKeys`) with this foreign value
   faults : Nat := 0        -- ghost schedule: bit i set = the i-th storage read of the named mapping's main record during the command fails transiently
+  late : Option Nat := none -- ghost schedule: the handler outlives the executor's RPC wait (timeout) and resumes while a command of connection `late` is in flight
 deriving DecidableEq, Repr
 
 /-- Repaired code vs. the code as found (five missing checks, see KNOWN_FINDINGS `fixed:` lines). -/
